@@ -60,6 +60,11 @@ Theorem id_roundtrip_invalid_pattern_refuted : exists tag p id,
   rid_to_id tag p (id_to_rid tag p id) <> Some id.
 Proof. exact id_roundtrip_refuted_pf. Qed.
 
+(* name parts and resource ids agree: whatever is accepted as a name part (ids handed to the id transformers,
+   event and method names, connection ids) is a valid resource id of one token *)
+Theorem valid_part_is_valid_rid : forall t, is_valid_part t = true -> is_valid_rid t = true.
+Proof. exact valid_part_is_rid_pf. Qed.
+
 (* the scanner before the fix violated matches_iff_values (witness "a$b" / "axyz") *)
 Theorem matches_v0_refuted : exists p s,
   is_valid p = true /\ no_gt_start s = true /\ matches_v0 p s <> isSome (values p s).
